@@ -24,6 +24,7 @@ var c19Justified = map[string]string{
 	"pdf.asMalformedFilter|blamed|err":                                                                   "decoder set-up errors are relabelled here by design; a source failure underneath is recovered by the source-error latch (rule C19-R3: DecodeStream returns src.promote(err))",
 	"pdf.(*filterContentReader).Read|blamed|err":                                                         "decoder read errors are relabelled here by design; sourceAwareReader above substitutes the latched source error (rule C19-R3)",
 	"pdf.(*FilterJBIG2).Decode|swallowed|io.Reader.Read":                                                 "size probe: when the probe returns data the budget-exceeded error is reported instead; when it returns no data its error is returned (fixed in 026079f)",
+	"pdf.getObjStm|discarded|io.Closer.Close":                                                            "Close of the decoder on the error path (only when another error is already being returned); the stream was only read",
 	"pdf.Open|discarded|os.(*File).Close":                                                                "Close on the error path of Open: the primary error is returned, the file was only read",
 	"pdf.(*scanner).ReadObject|discarded|pdf.(*scanner).PeekN":                                           "refill latches every non-EOF error in scanner.err; ReadIndirectObject's next read (endobj) returns it, and inside object streams a stream keyword is not legal so the dictionary is the complete object",
 	"pdf.(*scanner).tryHex|discarded|pdf.(*scanner).PeekN":                                               "refill latches the error in scanner.err; ReadName's next PeekN returns it",
